@@ -4,6 +4,7 @@ import CookModel.Lemmas.Blocks
 import CookModel.Lemmas.CoverEvents
 import CookModel.Lemmas.CoverAll
 import CookModel.Lemmas.CoverInput
+import CookModel.Lemmas.TableFacts
 /-
   C05  No recipe content is silently dropped.
 
@@ -338,5 +339,31 @@ example : (match (metadataEntry (α := Rat) ⟨lex toyCharSpec ">> k: v".toList,
     name ` A ` 14..17, the `>` text line `note` 21..25 -/
 example : ((pullEvents (α := Rat) toyCharSpec ⟨0⟩ "---\nt: x\n---\n= A =\n> note".toList).1.toList.map
     Ev.covSpan).filter Option.isSome = [some ⟨4, 9⟩, some ⟨14, 17⟩, some ⟨21, 25⟩] := by decide +kernel
+
+/-! ### the character table of the real lexer: `AlnumSpec` is proved for the generated table (`Lemmas/TableFacts.lean`:
+    decided on every range of the list `harness chartable` writes from the real lexer and std's predicates) -/
+
+/-- a letter or digit is no white space of either kind and none of `>`, `=`, backslash, LF, CR, `-`, for EVERY
+    character of the generated table -/
+theorem C05_alnumSpec_real : AlnumSpec realCharSpec :=
+  ⟨fun c h => ⟨(tbl_alnum c h).1, (tbl_alnum c h).2.1⟩, fun c h => (tbl_alnum c h).2.2⟩
+
+example : realCharSpec.alnum 'é' = true := by decide +kernel
+
+/-- `C05_alnum_tokens_are_content` at the character table generated from the real lexer:
+    the side condition `AlnumSpec` is proved for that table (`Lemmas/TableFacts.lean`), not assumed -/
+theorem C05_alnum_tokens_are_content_real (off : Nat) (s : List Char) (t : Tok) (ht : t ∈ lexFrom realCharSpec off s)
+    (hlc : t.kind ≠ .lineComment) (hbc : t.kind ≠ .blockComment) (c : Char) (hc : c ∈ t.text)
+    (ha : realCharSpec.alnum c = true) :
+    Wordy realCharSpec t :=
+  C05_alnum_tokens_are_content (cs := realCharSpec) (hs := C05_alnumSpec_real) off s t ht hlc hbc c hc ha
+
+/-- `C05_conservation` at the character table generated from the real lexer:
+    the side condition `AlnumSpec` is proved for that table (`Lemmas/TableFacts.lean`), not assumed -/
+theorem C05_conservation_real {α : Type} [Arith α] (ext : Ext) (input a z : List Char) (c : Char)
+    (hin : input = a ++ c :: z) (ha : realCharSpec.alnum c = true) :
+    InComment realCharSpec input (utf8Len a) (utf8Len a + c.utf8Size) ∨
+    BytesCovered (pullEvents (α := α) realCharSpec ext input).1 (utf8Len a) (utf8Len a + c.utf8Size) :=
+  C05_conservation (cs := realCharSpec) (hs := C05_alnumSpec_real) ext input a z c hin ha
 
 end Cook
